@@ -215,6 +215,20 @@ pub fn inputs_c05(r: &mut Rng, n: usize, _tier: &str, out: &mut dyn Write) {
             }
         }
     }
+    // result-on-a-century block: the values whose count IN THE TARGET scale is a whole number of centuries (where the
+    // (centuries, nanoseconds) form of the result rolls over), +/- 1 ns
+    for a in UNIFORM {
+        for b in UNIFORM {
+            if a == b {
+                continue;
+            }
+            for c in -2i128..=2 {
+                for dt in [-1i128, 0, 1] {
+                    writeln!(out, "tots {}:{} {}", dstr(c * NPC - (ref_off(a) - ref_off(b)) + dt), a, b).unwrap();
+                }
+            }
+        }
+    }
     for k in 0..n {
         if k % 12 == 11 {
             // the thin public wrappers (from_X_seconds/days, to_X_seconds/days, to_tai(unit) ...) against the generic call
@@ -471,6 +485,45 @@ pub fn inputs_c17(r: &mut Rng, n: usize, _tier: &str, out: &mut dyn Write) {
                     let e = if ts == "UTC" { (t + off) * SEC + r.below(SEC as u64) as i128 } else { tai - ref_off(ts) };
                     writeln!(out, "accf {} {}:{}", acc, dstr(e), ts).unwrap();
                     n -= 1;
+                }
+            }
+        }
+    }
+    // result-on-a-century block: the epochs at which a duration-valued VIEW (not the epoch's own count) is a whole
+    // number of centuries, i.e. where the (centuries, nanoseconds) form of the RESULT rolls over, +/- 1 ns; aimed with
+    // the library's own view (two steps, because the UTC views move with the leap seconds), judged by the spec
+    if n >= 5000 {
+        let mut k = 0usize;
+        for name in ACCD {
+            let sibs: &[&str] = match name {
+                "to_jde_tai_duration" => &["to_jde_tai_days", "to_jde_tai_seconds"],
+                "to_jde_utc_duration" => &["to_jde_utc_days", "to_jde_utc_seconds"],
+                "to_jde_tt_duration" => &["to_jde_tt_days"],
+                "to_mjd_tt_duration" => &["to_mjd_tt_days"],
+                _ => &["to_tt_centuries_j2k", "to_tt_days", "to_tt_seconds"],
+            };
+            for c in -3i128..=70 {
+                if c > 3 && c < 64 {
+                    continue; // JD views: 66 centuries + 4370.5 days at the reference
+                }
+                let ts = NONDYN[k % NONDYN.len()];
+                k += 1;
+                let mut e = s2e(&format!("0:0:{}", ts));
+                for _ in 0..3 {
+                    let got = match acc17_call(name, &e) { Some(d) => d.total_nanoseconds(), None => break };
+                    e = e + Duration::from_total_nanoseconds(c * NPC - got);
+                }
+                let base = e.duration.total_nanoseconds();
+                if base.abs() > 3_700_000 * DAY {
+                    continue;
+                }
+                for dt in [-1i128, 0, 1] {
+                    let es = format!("{}:{}", dstr(base + dt), ts);
+                    writeln!(out, "acc17 {} {}", name, es).unwrap();
+                    for sb in sibs {
+                        writeln!(out, "accf {} {}", sb, es).unwrap();
+                    }
+                    n = n.saturating_sub(1 + sibs.len());
                 }
             }
         }
